@@ -276,6 +276,26 @@ impl World {
                     }
                 }
             }
+            "create" => {
+                let cl = cmd["cl"].as_str().unwrap().to_string();
+                let kind = cmd["kind"].as_str().unwrap();
+                let h = cmd["h"].as_u64().unwrap();
+                let d = cmd["d"].as_u64().unwrap_or(0);
+                if self.clients.contains_key(&cl) {
+                    self.inappl("create: client busy");
+                } else {
+                    let made = {
+                        let _g = self.client_rt.enter();
+                        Instr::new_lazy(&cl, kind, h, d)
+                    };
+                    match made {
+                        Some(i) => {
+                            self.clients.insert(cl.clone(), ClientOp { fut: Box::pin(i), flag: Arc::new(Flag(AtomicBool::new(false))) });
+                        }
+                        None => self.inappl("create: handle cannot do this"),
+                    }
+                }
+            }
             "poll" => {
                 let cl = cmd["cl"].as_str().unwrap().to_string();
                 if self.clients.contains_key(&cl) {
@@ -293,7 +313,7 @@ impl World {
                         let fits = match dir {
                             "true" | "false" => parked == "Run",
                             "ok" => matches!(parked, "Start" | "Handler" | "Stop"),
-                            "slow" | "slowpanic" => parked == "Handler",
+                            "slow" | "slowpanic" | "veryslow" => parked == "Handler",
                             "err" => matches!(parked, "Start" | "Stop" | "Run"),
                             _ => parked != "",
                         } && exp_hook.map(|h| h == parked).unwrap_or(true);
@@ -625,6 +645,9 @@ impl World {
     }
 
     fn settle(&mut self) {
+        // a poll can make progress without logging anything (a granted sender pushing its message), so one quiet round
+        // is not a fixpoint: stop after two
+        let mut quiet_rounds = 0;
         for _round in 0..200 {
             let before = self.progress_marker();
             let names: Vec<String> = self.order.clone();
@@ -647,6 +670,11 @@ impl World {
                 self.exec(&json!({"c": "poll", "cl": cl, "tail": true}));
             }
             if self.progress_marker() != before {
+                quiet_rounds = 0;
+                continue;
+            }
+            quiet_rounds += 1;
+            if quiet_rounds < 2 {
                 continue;
             }
             // nothing moved: if a deadline lies ahead, go there
